@@ -91,7 +91,7 @@ def reparse_same(soup, label, det):
 def c14_rename(doc, k, nlen):
     src, soup, sp = setup(doc)
     cands = [x for x in exprs_of(soup.expr, []) if isinstance(x, (TexCmd, TexNamedEnv))
-             and (SX.is_symbolic(SX.raw(x.name)) or plain_name(SX.raw(x.name)))]
+             and (SX.is_symbolic(SX.raw(x.name)) or plain_name(SX.raw(x.name)) or SX.raw(x.name) == 'item')]
     if k >= len(cands):
         return ('skip',)
     e = cands[k]
@@ -122,7 +122,8 @@ def c14_rename(doc, k, nlen):
     SX.check(soup.count(new) == n_new0 + 1, 'C14:rename-search-new', det)
     f = [n for n in soup.find_all(new) if n.expr is e]
     SX.check(len(f) == 1, 'C14:rename-target-not-found-by-new-name', det)
-    reparse_same(soup, 'C14:rename', det)
+    if old != 'item':        # (a renamed \\item keeps its body in the tree; re-read, the body becomes siblings: name class changed)
+        reparse_same(soup, 'C14:rename', det)
     return ('ok', SX.raw(str(soup)))
 
 
